@@ -100,6 +100,7 @@ def V1 : Shape → Type
   | .tss _ _ => Bool × List Bool
   | .tsd _ _ v => Bool × List (Slot (V1 v))
   | .tsl e _ => List (V1 e)
+  | .tsld e => List (V1 e)
   | .tsb fs => V1 fs
   | .bnil => Unit
   | .bcons f r => V1 f × V1 r
@@ -111,6 +112,7 @@ def fresh1 : (s : Shape) → V1 s
   | .tss _ u => ((false, falses u) : Bool × List Bool)
   | .tsd _ u v => ((false, List.replicate u Slot.absent) : Bool × List (Slot (V1 v)))
   | .tsl e n => List.replicate n (fresh1 e)
+  | .tsld _ => []
   | .tsb fs => fresh1 fs
   | .bnil => ()
   | .bcons f r => (fresh1 f, fresh1 r)
@@ -125,6 +127,7 @@ def toV1 : (s : Shape) → St s → V1 s
       | some c => Slot.live (toV1 v c)
       | none => Slot.absent)
   | .tsl e _, st => st.map (toV1 e)
+  | .tsld e, st => st.map (toV1 e)
   | .tsb fs, st => toV1 fs st
   | .bnil, _ => ()
   | .bcons f r, st => (toV1 f st.1, toV1 r st.2)
@@ -136,6 +139,7 @@ def valid1 : (s : Shape) → V1 s → Bool
   | .tss _ _, st => st.1
   | .tsd _ _ _, st => st.1
   | .tsl e _, st => st.any (valid1 e)
+  | .tsld e, st => st.any (valid1 e)
   | .tsb fs, st => valid1 fs st
   | .bnil, _ => false
   | .bcons f r, st => valid1 f st.1 || valid1 r st.2
@@ -157,6 +161,7 @@ def hasEffect1 : (s : Shape) → V1 s → Dl s → Bool
       else if d.any (fun op => op.removed) then removesPresent1 st.2 d
       else !st.1
   | .tsl _ _, _, d => d.any Option.isSome
+  | .tsld _, _, d => d.any Option.isSome
   | .tsb fs, st, d => hasEffect1 fs st d
   | .bnil, _, _ => false
   | .bcons f r, st, d =>
@@ -197,6 +202,30 @@ def listApply1 {σ δ : Type} (app : σ → δ → Option σ) : List σ → List
       | some m, some rest => some (m :: rest)
       | _, _ => none
 
+/-- children a dynamic list creates past its end (`growApply` of `Model/Delta.lean`, with a child that may throw) -/
+def growApply1 {σ δ : Type} (freshC : σ) (app : σ → δ → Option σ) : List (Option δ) → Option (List σ)
+  | [] => some []
+  | od :: ods =>
+      if (od :: ods).any Option.isSome then
+        let mine := match od with
+          | some dc => app freshC dc
+          | none => some freshC
+        match mine, growApply1 freshC app ods with
+        | some m, some rest => some (m :: rest)
+        | _, _ => none
+      else some []
+
+def dynApply1 {σ δ : Type} (freshC : σ) (app : σ → δ → Option σ) : List σ → List (Option δ) → Option (List σ)
+  | [], ods => growApply1 freshC app ods
+  | c :: cs, [] => (dynApply1 freshC app cs []).map (c :: ·)
+  | c :: cs, od :: ods =>
+      let mine := match od with
+        | some dc => app c dc
+        | none => some c
+      match mine, dynApply1 freshC app cs ods with
+      | some m, some rest => some (m :: rest)
+      | _, _ => none
+
 def setElems : List Bool → List Bool → List Bool → List Bool
   | [], _, _ => []
   | e :: es, as, rs => ((e && !rs.headD false) || as.headD false) :: setElems es as.tail rs.tail
@@ -213,6 +242,7 @@ def apply1 : (s : Shape) → V1 s → Dl s → Option (V1 s)
       if hasEffect1 (.tsd b u v) st d then (dictApply1 (fresh1 v) (apply1 v) st.2 d).map fun sl => (true, sl)
       else some st
   | .tsl e _, st, d => listApply1 (apply1 e) st d
+  | .tsld e, st, d => dynApply1 (fresh1 e) (apply1 e) st d
   | .tsb fs, st, d => apply1 fs st d
   | .bnil, _, _ => some ()
   | .bcons f r, st, d =>
